@@ -62,10 +62,13 @@ def cases(draw: Any, max_n: int) -> dict:
             "x_dtype": draw(st.sampled_from(["space", "int64"]))}
 
 
-def build_instance(mat: dict, lb: int = 0, name: str | None = None) -> Any:
+def build_instance(mat: dict, lb: int = 0, name: str | None = None,
+                   keep: list | None = None) -> Any:
     import numpy as np
     from moptipyapps.tsp.instance import Instance
     arr = np.array(mat["m"], dtype=np.dtype(mat["in_dtype"]))
+    if keep is not None:
+        keep.append(arr)  # the caller's buffer, overwritten later
     return Instance(name or f"gen{mat['n']}", int(lb), arr)
 
 
@@ -91,7 +94,8 @@ def check_tour_length(ctx: Ctx, case: dict) -> None:
               "symmetric" if sym else f"asymmetric({mat['kind']})",
               "n=2" if n == 2 else ("n=3..8" if n <= 8 else "n>=9")]
     try:
-        inst = sut("tsp Instance()", build_instance, mat, arg,
+        buffers: list = []
+        inst = sut("tsp Instance()", build_instance, mat, arg, None, buffers,
                    allowed=(ValueError,) if mode == "above" else ())
     except ValueError:
         ctx.rec.case(case, nontrivial=False,
@@ -132,6 +136,20 @@ def check_tour_length(ctx: Ctx, case: dict) -> None:
                 lambda: f"tour length {got} outside [{lb}, {ub}]")
         require(x.tolist() == t, "evaluate modified the tour")
     require(np.asarray(inst).tolist() == m, "evaluate modified the instance")
+    # documented: "the matrix with the data (will be copied)" - the caller
+    # re-uses its buffer; the instance must keep the matrix it was given
+    buffers[0].fill(0)
+    require(np.asarray(inst).tolist() == m, "the instance shares memory with "
+            "the caller's array (documented: the matrix will be copied): "
+            "overwriting the caller's buffer changed the stored matrix")
+    if case["tours"]:
+        t = case["tours"][0]
+        got = sut("TourLength.evaluate", f.evaluate,
+                  tour_array(t, case["x_dtype"]))
+        require(got == o.cyclic_length(m, t), "tour length changed after the "
+                "caller overwrote its own buffer")
+    if inst.dtype == buffers[0].dtype:
+        labels.append("storage_dtype==input_dtype")
     labels.append(f"dtype={inst.dtype.name}")
     for e in gen_mat.EDGES:
         if abs(hi - e) <= 3:
